@@ -69,11 +69,18 @@ pub fn reformat_range_in_chunk(
     let source_indent_prefix = line_indent_prefix(source_text, selected_range.start());
     let target_indent_prefix =
         target_indent_prefix(chunk.syntax(), source_text, selected_range, config);
-    let dedented = strip_base_indent(fragment, &source_indent_prefix);
+    // Lines that start inside a multi-line token (long string, long comment) are content, not
+    // indentation: they must neither be dedented nor re-indented.
+    let source_protected = multiline_token_line_starts(chunk.syntax(), selected_range);
+    let dedented = strip_base_indent(fragment, &source_indent_prefix, &source_protected);
     let mut fragment_config = config.clone();
     fragment_config.output.insert_final_newline = fragment.ends_with('\n');
     let formatted = format_fragment(&dedented, level, &fragment_config)?;
-    let text = apply_base_indent(&formatted, &target_indent_prefix);
+    let formatted_tree = LuaParser::parse(&formatted, ParserConfig::with_level(level));
+    let formatted_root = formatted_tree.get_red_root();
+    let formatted_protected =
+        multiline_token_line_starts(&formatted_root, formatted_root.text_range());
+    let text = apply_base_indent(&formatted, &target_indent_prefix, &formatted_protected);
 
     Some(RangeFormatOutput {
         replace_range: selected_range,
@@ -412,8 +419,45 @@ fn contains_offset(range: TextRange, offset: TextSize) -> bool {
     range.start() <= offset && offset < range.end()
 }
 
-fn strip_base_indent(text: &str, indent_prefix: &str) -> String {
-    map_lines(text, |content, newline| {
+/// Offsets (relative to `range.start()`) of the line starts inside `range` that lie within a token,
+/// i.e. the continuation lines of multi-line tokens such as long strings and long comments.
+fn multiline_token_line_starts(root: &LuaSyntaxNode, range: TextRange) -> Vec<usize> {
+    let range_start = usize::from(range.start());
+    let range_end = usize::from(range.end());
+    let mut starts = Vec::new();
+    for token in root
+        .descendants_with_tokens()
+        .filter_map(|element| element.into_token())
+    {
+        let token_range = token.text_range();
+        if token_range.end() <= range.start() || token_range.start() >= range.end() {
+            continue;
+        }
+        let text = token.text();
+        if !text.contains('\n') || text.trim().is_empty() {
+            continue;
+        }
+        let token_start = usize::from(token_range.start());
+        for (index, byte) in text.bytes().enumerate() {
+            let line_start = token_start + index + 1;
+            if byte == b'\n'
+                && index + 1 < text.len()
+                && line_start >= range_start
+                && line_start < range_end
+            {
+                starts.push(line_start - range_start);
+            }
+        }
+    }
+    starts
+}
+
+fn strip_base_indent(text: &str, indent_prefix: &str, protected_line_starts: &[usize]) -> String {
+    map_lines(text, |line_start, content, newline| {
+        if protected_line_starts.contains(&line_start) {
+            return format!("{content}{newline}");
+        }
+
         let stripped = content.strip_prefix(indent_prefix).unwrap_or(content);
         let mut line = String::with_capacity(stripped.len() + newline.len());
         line.push_str(stripped);
@@ -422,14 +466,17 @@ fn strip_base_indent(text: &str, indent_prefix: &str) -> String {
     })
 }
 
-fn apply_base_indent(text: &str, indent_prefix: &str) -> String {
+fn apply_base_indent(text: &str, indent_prefix: &str, protected_line_starts: &[usize]) -> String {
     if indent_prefix.is_empty() {
         return text.to_string();
     }
 
-    map_lines(text, |content, newline| {
+    map_lines(text, |line_start, content, newline| {
         if content.is_empty() {
             return newline.to_string();
+        }
+        if protected_line_starts.contains(&line_start) {
+            return format!("{content}{newline}");
         }
 
         let mut line = String::with_capacity(indent_prefix.len() + content.len() + newline.len());
@@ -440,11 +487,13 @@ fn apply_base_indent(text: &str, indent_prefix: &str) -> String {
     })
 }
 
-fn map_lines(text: &str, mut map: impl FnMut(&str, &str) -> String) -> String {
+fn map_lines(text: &str, mut map: impl FnMut(usize, &str, &str) -> String) -> String {
     let mut result = String::new();
+    let mut line_start = 0;
     for line in text.split_inclusive('\n') {
         let (content, newline) = split_line_ending(line);
-        result.push_str(&map(content, newline));
+        result.push_str(&map(line_start, content, newline));
+        line_start += line.len();
     }
 
     result
